@@ -69,6 +69,8 @@ func buildKinds() []kind {
 		kind{"plain gogo types.Timestamp", csproto.MessageTypeGogo, false, func() any { return &gogotypes.Timestamp{} }},
 		kind{"plain gogo descriptor.EnumValueDescriptorProto", csproto.MessageTypeGogo, false, func() any { return &gogodesc.EnumValueDescriptorProto{} }},
 		kind{"plain gogo descriptor.FieldDescriptorProto", csproto.MessageTypeGogo, false, func() any { return &gogodesc.FieldDescriptorProto{} }},
+		kind{"plain gogo descriptor.UninterpretedOption_NamePart (required fields)", csproto.MessageTypeGogo, false, func() any { return &gogodesc.UninterpretedOption_NamePart{} }},
+		kind{"plain gogo descriptor.UninterpretedOption", csproto.MessageTypeGogo, false, func() any { return &gogodesc.UninterpretedOption{} }},
 		kind{"legacy golang/protobuf v1 prometheus.LabelPair", csproto.MessageTypeGoogleV1, false, func() any { return &promv1.LabelPair{} }},
 		kind{"legacy golang/protobuf v1 prometheus.Gauge", csproto.MessageTypeGoogleV1, false, func() any { return &promv1.Gauge{} }},
 		kind{"legacy golang/protobuf v1 prometheus.Metric", csproto.MessageTypeGoogleV1, false, func() any { return &promv1.Metric{} }},
@@ -372,10 +374,12 @@ func runC11(t *rapid.T, w *rep.Worker, maxClients int) {
 			k = kinds[rapid.IntRange(0, len(corpus.All)-1).Draw(t, "fastkind")]
 		}
 		m := k.new()
-		func() {
-			defer func() { _ = recover() }()
-			corpus.Populate(t, corpus.Wrap(m), 1)
-		}()
+		if rapid.IntRange(0, 5).Draw(t, "emptyvalue") != 0 { // one value in six stays empty (also of types with required fields)
+			func() {
+				defer func() { _ = recover() }()
+				corpus.Populate(t, corpus.Wrap(m), 1)
+			}()
+		}
 		vals = append(vals, value{k, m})
 	}
 	nc := rapid.IntRange(2, maxClients).Draw(t, "nclients")
